@@ -1,11 +1,17 @@
 import DnsVerif.Lemmas.EncName
+import DnsVerif.Lemmas.EncSpecMsg
 
-/-! # C05 — encoded output is a well-formed DNS message carrying the same value (part 1: names, pointers)
+/-! # C05 — encoded output is a well-formed DNS message carrying the same value
 
 Part 1: every compression pointer the encoder emits refers backwards to a previously written name below
-offset 16384 and names need at most 16 hops (from the table invariant, for every history). Part 2
-(`encodeDns_spec : WfMsg m → encodeDns m = .ok b → ∃ m', m'.norm = m.norm ∧ MsgAt b true m'`, from
-Lemmas/EncSpec*.lean) is appended when complete; until then PARTIAL. -/
+offset 16384 and names need at most 16 hops (from the table invariant, for every history). Part 2: for every well-formed message value
+(`WfMsg`, Spec/WF.lean: what the Rust types and constructors enforce) that encodes successfully, the output
+satisfies the independent wire grammar IN ITS STRICT FORM (`bk = true`: every pointer strictly backwards,
+≤ 16 hops) for a value equal to the written one up to ASCII case of names and order of `mandatory`
+(`Msg.norm`). `MsgAt` spells out the property's bullet list: counts = section sizes, every RDLENGTH /
+option length / AFDLENGTH / SvcParam length = the octets it covers, nothing after the last record,
+12 ≤ size. "An independent RFC decoder reads it back" = completeness of the grammar-based reference
+(C04) — composed in `encode_decode` when Lemmas/RT*.lean is complete. -/
 
 namespace C05
 
@@ -23,5 +29,69 @@ theorem emitted_name_wellformed {S : Nat → Prop} {e e' : Enc} {n : Name} (hr :
 theorem pointer_target_lt (a b : UInt8) : ptrOff a b < 16384 := by
   have := a.toNat_lt; have := b.toNat_lt
   unfold ptrOff; omega
+
+/-! ## Whole messages and elements -/
+
+theorem encodeDns_spec {m : Msg} {b : Bytes} (hwf : WfMsg m) (h : encodeDns m = .ok b) :
+    ∃ m', m'.norm = m.norm ∧ MsgAt b true m' := EncSpec.encodeDns_spec hwf h
+
+theorem encodeRR_spec {rr : RR} {b : Bytes} (hwf : WfRR rr) (h : encodeRR rr = .ok b) :
+    ∃ rr', rr'.norm = rr.norm ∧ RRAt b true 0 rr' b.length := EncSpec.encodeRR_spec hwf h
+
+theorem encodeQuestion_spec {q : Question} {b : Bytes} (hwf : WfQuestion q) (h : encodeQuestion q = .ok b) :
+    ∃ q', q'.lower = q.lower ∧ QuestionAt b true 0 q' b.length := EncSpec.encodeQuestion_spec hwf h
+
+/-- the emitted message stays within 65,535 octets (the final check of `Encoder::dns`, as repaired) -/
+theorem encodeDns_le_65535 {m : Msg} {b : Bytes} (h : encodeDns m = .ok b) : b.length ≤ 65535 := by
+  unfold encodeDns outOf at h
+  cases he : encMsg {} m with
+  | error e => simp [he] at h
+  | ok e =>
+    simp only [he] at h
+    injection h with h; subst h
+    unfold encMsg at he
+    simp only at he
+    cases h1 : encCount (Enc.put {} (beBytes 2 m.id ++ flagsBytes m.flags)) m.qs.length with
+    | error x => simp [h1] at he
+    | ok e1 =>
+      simp only [h1] at he
+      cases h2 : encCount e1 m.an.length with
+      | error x => simp [h2] at he
+      | ok e2 =>
+        simp only [h2] at he
+        cases h3 : encCount e2 m.ns.length with
+        | error x => simp [h3] at he
+        | ok e3 =>
+          simp only [h3] at he
+          cases h4 : encCount e3 m.ar.length with
+          | error x => simp [h4] at he
+          | ok e4 =>
+            simp only [h4] at he
+            cases h5 : encQuestions e4 m.qs with
+            | error x => simp [h5] at he
+            | ok e5 =>
+              simp only [h5] at he
+              cases h6 : encRRs e5 m.an with
+              | error x => simp [h6] at he
+              | ok e6 =>
+                simp only [h6] at he
+                cases h7 : encRRs e6 m.ns with
+                | error x => simp [h7] at he
+                | ok e7 =>
+                  simp only [h7] at he
+                  cases h8 : encRRs e7 m.ar with
+                  | error x => simp [h8] at he
+                  | ok e8 =>
+                    simp only [h8] at he
+                    split at he
+                    · simp at he
+                    · injection he with he; subst he; omega
+
+/-- every length field written by the back-patcher is the true length of the window it covers -/
+theorem length_field_exact {S : Nat → Prop} {e e' : Enc} {li : Nat} (hinv : EInv S e)
+    (hfree : ∀ j, S j → j < li ∨ li + 2 ≤ j) (h : setLen e li = .ok e') :
+    BytesAt e'.out li (beBytes 2 (e.out.length - li - 2)) ∧ e.out.length - li - 2 ≤ 65535 ∧ e'.out.length = e.out.length := by
+  obtain ⟨_, _, h3, h4, _, h6, _⟩ := EncSpec.setLen_spec hinv hfree h
+  exact ⟨h6, h4, h3⟩
 
 end C05
